@@ -543,6 +543,7 @@ func (s *spec) Step(w *engine.World, ctx sdk.Context, mm engine.Model, ev string
 			class = "over-balance"
 		}
 		st.Outcome = fmt.Sprintf("create:%s:%s:%s", parts[2], class, res.ErrName())
+		st.Saw(fmt.Sprintf("create:%s:%s:%s", parts[2], class, verdict(res)))
 		if res.OK() {
 			id := k.GetTunnelCount(ctx)
 			if id != before+1 || id != uint64(len(m.Tunnels))+1 {
@@ -574,6 +575,7 @@ func (s *spec) Step(w *engine.World, ctx sdk.Context, mm engine.Model, ev string
 				class = "over-balance"
 			}
 			st.Outcome = fmt.Sprintf("dep:%s:%s", class, res.ErrName())
+			st.Saw(fmt.Sprintf("dep:%s:%s", class, verdict(res)))
 			if res.OK() {
 				if t == nil {
 					st.Violate("deposit-accepted:no-such-tunnel", "%s accepted", ev)
@@ -602,6 +604,7 @@ func (s *spec) Step(w *engine.World, ctx sdk.Context, mm engine.Model, ev string
 			}
 			expect := class == "within-own-deposit"
 			st.Outcome = fmt.Sprintf("wd:%s:%s", class, res.ErrName())
+			st.Saw(fmt.Sprintf("wd:%s:%s", class, verdict(res)))
 			if res.OK() && !expect {
 				others := "others-hold-nothing"
 				if t != nil && t.total().covers(amt) {
@@ -646,6 +649,7 @@ func (s *spec) Step(w *engine.World, ctx sdk.Context, mm engine.Model, ev string
 		res := w.Tx(ctx, 0, msg)
 		info.accepted = res.OK()
 		st.Outcome = fmt.Sprintf("%s:%s:%s:%s:%s", info.kind, role(t, info.by), cov(t), onoff(pre[info.tid]), res.ErrName())
+		st.Saw(fmt.Sprintf("%s:%s:%s:%s:%s", info.kind, role(t, info.by), cov(t), onoff(pre[info.tid]), verdict(res)))
 		info.legalAct = info.kind == "act" && t != nil && t.Creator == info.by && t.total().covers(s.min)
 		if res.OK() {
 			switch {
@@ -922,6 +926,27 @@ func init() {
 	})
 }
 
+// verdict is the code-independent part of a transaction outcome (used by the vacuity guard).
+func verdict(r engine.TxResult) string {
+	if r.OK() {
+		return "accepted"
+	}
+	return "rejected"
+}
+
+// required lists the observations without which a run would be vacuous: every clause of the
+// statement must have been exercised in both directions on the explored state space.
 func required(quick bool) []string {
-	return nil
+	return []string{
+		"create:0:affordable:accepted", "create:min:affordable:accepted", "create:min:over-balance:rejected",
+		"dep:affordable:accepted", "dep:over-balance:rejected", "dep:no-tunnel:rejected",
+		"wd:within-own-deposit:accepted", "wd:exceeds-own-deposit:rejected", "wd:no-deposit:rejected", "wd:no-tunnel:rejected",
+		"act:creator:covered:inactive:accepted", "act:creator:below-min:inactive:rejected",
+		"act:stranger:covered:inactive:rejected", "act:stranger:below-min:inactive:rejected",
+		"deact:creator:covered:active:accepted", "deact:stranger:covered:active:rejected",
+		"trig:creator:covered:active:accepted", "trig:creator:covered:inactive:rejected", "trig:stranger:covered:active:rejected",
+		"wd-from-active:to-below-min", "wd-from-active:still-covered", "wd-below-min:deactivated",
+		"block:active=1", "block:active=2",
+		"endblock:produce_packet_fail", "endblock:produce_packet_success", "endblock:deactivate_tunnel", "endblock:active-but-not-due",
+	}
 }
